@@ -53,8 +53,10 @@ var it = {[Symbol.iterator]: function() { var i = 0; return {next: function() { 
 `
 
 var identPool = []string{"a", "b", "c", "d", "x", "y", "z", "u", "o", "arr", "s", "n", "t", "f", "g", "h", "it", "sym"}
-var newIdentPool = []string{"v0", "v1", "v2", "w", "k", "e", "r", "a", "x", "o", "f", "arguments", "eval", "async", "of", "let", "yield", "await", "static", "get", "set", "undefined"}
-var propPool = []string{"p", "q", "r", "s", "m", "g", "length", "constructor", "prototype", "__proto__", "toString", "valueOf", "name", "0", "1", "x", "then", "next", "done", "value"}
+var newIdentPool = []string{"v0", "v1", "v2", "w", "k", "e", "r", "a", "x", "o", "f", "arguments", "eval", "async", "of", "let", "yield", "await", "static", "get", "set", "undefined",
+	// identifier spellings: escapes (BMP and astral, ID_Start and ID_Continue), raw astral and non-ASCII characters, and ill-formed ones
+	"\\u{76}0", "\\u0076\\u0031", "\\u{1D400}", "a\\u{1D7D8}b", "\U0001D400", "x\U0001D7D8", "\u2102", "a\u200d", "\\u{2F800}", "\\u{D800}", "\\u{110000}", "a\\u{}"}
+var propPool = []string{"p", "q", "r", "s", "m", "g", "length", "constructor", "prototype", "__proto__", "toString", "valueOf", "name", "0", "1", "x", "then", "next", "done", "value", "\\u{1D400}", "\\u0070", "p\\u{1D7D8}", "\U0001D400"}
 
 func (g *syn) kind(k string) {
 	if g.o.Kinds != nil {
